@@ -114,6 +114,10 @@ func (m *Module) Evaluation(
 		p.Fatal(ctx, err)
 	}
 
+	if nextT == nil || nextT.IsNewLineIdentifier() {
+		return fmt.Errorf("syntax error: module name expected")
+	}
+
 	nextFrame := m.getNextFrame(ctx)
 	class := nextT.ToString()
 
